@@ -107,7 +107,7 @@ def gen_case(rng, tier, i):
 
 def gen_boundary_case(rng, tier, i):
     """a document of the usual kind, one or two of whose comment lines contain a character of BOUNDARY_ASCII /
-    BOUNDARY_WIDE (all of them non-ASCII-free in two cases of three, so that the file entry points see them too)"""
+    BOUNDARY_WIDE (ASCII characters only in two cases of three: those documents go through the file entry points too)"""
     ml = rng.choice([4, 6, 8, 12, 12]) if tier == "quick" else rng.choice([8, 12, 20, 30, 40])
     k = rng.choice([1, 1, 2])
     d = D.gen_doc(rng, max_lines=max(3, ml - k), same_id_groups=False)
